@@ -312,6 +312,11 @@ func (v *Value) Index(i int) *Value {
 		if i >= v.Len() {
 			return AsValue(nil)
 		}
+		if inner, ok := v.getResolvedValue().Index(i).Interface().(*Value); ok && inner != nil {
+			// an item that is a value of the template already (a list written
+			// in the template) is handed out as it is, with its own safe mark
+			return inner
+		}
 		return AsValue(v.getResolvedValue().Index(i).Interface())
 	case reflect.String:
 		s := v.getResolvedValue().String()
